@@ -49,8 +49,19 @@ RULE = ("cases = (function, operand shapes/dtypes/data seeds, chunking of every 
 ASSUMPTIONS = ["NumPy 2.x defines the expected tensor products and singular values",
                "sync scheduler (threads for a tenth)",
                "floating tolerance: 8*eps*n reassociation bound for products, 64*eps*||A||_F for decompositions"]
-BUDGET = {"quick": 90, "thorough": 600}
-FLOORS = {"quick": {"evaluations": 1, "distinct_nontrivial": 1}, "thorough": {"evaluations": 1, "distinct_nontrivial": 1}}
+BUDGET = {"quick": 150, "thorough": 600}
+FLOORS = {"quick": {"evaluations": 1300, "distinct_nontrivial": 1100,
+                    "counters": {"compared": 1200, "compared_tensordot": 250, "compared_einsum": 210, "compared_matmul": 160,
+                                 "compared_dot": 70, "compared_outer": 45, "compared_qr_tsqr": 150, "compared_qr_sfqr": 80,
+                                 "compared_svd_tsqr": 150, "compared_svd_tsqr-of-transpose": 60, "tsqr_recursive": 120,
+                                 "tsqr_short_blocks": 220, "rank_deficient_or_zero": 180, "einsum_repeated_index": 90,
+                                 "einsum_ellipsis": 60, "tensordot_negative_left_axis": 18},
+                    "sets": {"einsum_specs": 200}, "max_skipped_fraction": 0.25},
+          "thorough": {"evaluations": 20000, "distinct_nontrivial": 17000,
+                       "counters": {"compared": 19000, "compared_tensordot": 3800, "compared_einsum": 3300,
+                                    "compared_qr_tsqr": 2200, "compared_svd_tsqr": 2200, "tsqr_recursive": 1800,
+                                    "einsum_repeated_index": 1500, "tensordot_negative_left_axis": 300},
+                       "max_skipped_fraction": 0.25}}
 EXHAUSTIVE_SPACE = ("all chunkings of (3,2)x(2,3) under tensordot axes=1 and axes=([0,1],[1,0]); all 32 row chunkings of a "
                     "(6,2) matrix and all 32 column chunkings of a (2,6) matrix under qr and svd")
 CLAIM = ("Every generated tensor product was computed by the real dask.array and compared with NumPy (shape, dtype, values "
